@@ -152,6 +152,19 @@ def recalc_case(nsp, grade=None, kmax=2, lookup=False):
         P = pts(c)
         return AND(*[XLT(P[i + 1][0], P[i][0]) for i in range(len(P) - 1)]) if len(P) > 1 else True
 
+    def jumps_boundary(c):
+        """some braking point lies strictly behind a posted-section boundary that its predecessor lies strictly ahead of: the curve
+        crossed back into an earlier section without ending at the boundary (the situation of the known finding)"""
+        P = pts(c)
+        S = c.S
+        # (a point exactly on the boundary counts unless it is the closing point of that section: limit = target = posted limit)
+        conds = [AND(OR(XLT(P[i][0], S[f"so{b}"]), AND(XEQ(P[i][0], S[f"so{b}"]), NOT(AND(XEQ(P[i][1], S[f"sl{b}"]), XEQ(P[i][2], S[f"sl{b}"]))))), XLT(S[f"so{b}"], P[i - 1][0]))
+                 for i in range(1, len(P)) for b in range(1, nsp)]
+        return OR(*conds) if conds else False
+
+    def unless_jump(f):
+        return lambda c: (f(c) if jumps_boundary(c) is False else IMP(NOT(jumps_boundary(c)), f(c)))
+
     def below_posted(c):
         """every braking point's limit is <= the posted limit wherever that point is the one in force:
         point i (i >= 1) is in force on [o_i, o_{i-1}); posted section j covers [so_j, so_{j+1})"""
@@ -190,8 +203,10 @@ def recalc_case(nsp, grade=None, kmax=2, lookup=False):
         Claim("the curve gains speed (backwards) no faster than brake + true resistance allow", physics, when="ok", role="recalc_physics"),
         Claim("curve starts with a stop at the end of the path", first_point, when="ok", role="recalc_first_point"),
         Claim("curve ends with the first posted section at the start of the path; cursor on the last point", last_point, when="ok", role="recalc_last_point"),
-        Claim("0 <= target <= limit at every braking point", target_le_limit, when="ok", role="recalc_target_le_limit"),
-        Claim("limit in force from the braking curve is never above the posted limit at that position", below_posted, when="ok", role="recalc_below_posted"),
+        Claim("0 <= target <= limit at every braking point (curves that end at section boundaries)", unless_jump(target_le_limit), when="ok", role="recalc_target_le_limit"),
+        Claim("0 <= target <= limit at every braking point (all curves)", target_le_limit, when="ok", role="recalc_crossing_target_le_limit"),
+        Claim("limit in force from the braking curve is never above the posted limit at that position (curves that end at section boundaries)", unless_jump(below_posted), when="ok", role="recalc_below_posted"),
+        Claim("limit in force from the braking curve is never above the posted limit at that position (all curves)", below_posted, when="ok", role="recalc_crossing_below_posted"),
         Claim("no_panic", None, when="nopanic", role="recalc_no_panic"),
     ]
     def posted(c):
@@ -208,8 +223,12 @@ def recalc_case(nsp, grade=None, kmax=2, lookup=False):
 
     if lookup:
         claims = [
-            Claim("limit in force returned by the lookup is never above the posted limit at the train's position", lambda c: LE(ret(c, 0), posted(c)), when="ok", role="lookup_below_posted"),
-            Claim("the speed the controller aims for is never above the limit in force", lambda c: AND(XLE(0, ret(c, 1)), LE(ret(c, 1), ret(c, 0))), when="ok", role="lookup_target_le_limit"),
+            Claim("limit in force returned by the lookup is never above the posted limit at the train's position (curves that end at section boundaries)",
+                  unless_jump(lambda c: LE(ret(c, 0), posted(c))), when="ok", role="lookup_below_posted"),
+            Claim("limit in force returned by the lookup is never above the posted limit at the train's position (all curves)", lambda c: LE(ret(c, 0), posted(c)), when="ok", role="lookup_crossing_below_posted"),
+            Claim("the speed the controller aims for is never above the limit in force (curves that end at section boundaries)",
+                  unless_jump(lambda c: AND(XLE(0, ret(c, 1)), LE(ret(c, 1), ret(c, 0)))), when="ok", role="lookup_target_le_limit"),
+            Claim("the speed the controller aims for is never above the limit in force (all curves)", lambda c: AND(XLE(0, ret(c, 1)), LE(ret(c, 1), ret(c, 0))), when="ok", role="lookup_crossing_target_le_limit"),
             Claim("no_panic", None, when="nopanic", role="lookup_no_panic"),
         ]
         return Case(f"recalc_lookup_sp{nsp}_{('grade%+g%+g' % tuple(grade)).replace('.', 'p') if grade else 'flat'}_k{kmax}", "C03", "W_Recalc", recv,
@@ -228,14 +247,40 @@ def recalc_case(nsp, grade=None, kmax=2, lookup=False):
                 expect_ok=True, max_paths=20000, loop_bound=12, timeout_ms=30000, check_side=False)
 
 
+# ---------------------------------------------------------------- one control step of the speed-limited train
+
+
+def sl_step_case(ramp0=True, dtv=1, mass=1000):
+    import slstep
+    recv = slstep.sl_step_recv(ramp0, dtv, mass)
+    v0 = lambda c: c.pre["state.speed"]
+    v1 = lambda c: c.post["state.speed"]
+    tgt = lambda c: c.post["state.speed_target"]
+    lim = lambda c: c.post["state.speed_limit"]
+    in_force = lambda c, f: IF(XLE(c.S["bo0"], c.pre["state.offset"]), c.S[f + "0"], c.S[f + "1"])
+    claims = [
+        Claim("speed after the step is non-negative", lambda c: XLE(0, v1(c)), when="ok", role="step_speed_nonneg"),
+        Claim("limit and target stored in the state are those of the braking point in force", lambda c: AND(EQ(lim(c), in_force(c, "bl")), LE(tgt(c), lim(c))), when="ok", role="step_limit_target"),
+        Claim("friction brake force within [0, current maximum]", lambda c: AND(XLE(0, c.post["fric_brake.state.force"]), LE(c.post["fric_brake.state.force"], tol(c.post["fric_brake.state.force_max_curr"]) + c.post["fric_brake.state.force_max_curr"] * (1 + tol(c.post["fric_brake.state.force"])))),
+              when="ok", role="step_fric_brake_range"),
+        Claim("no_panic", None, when="nopanic", role="step_no_panic"),
+    ]
+    return Case(f"speed_limit_step_control_{'ramp0' if ramp0 else 'ramp'}_dt{dtv}_m{mass}".replace(".", "p"), "C03", "SpeedLimitTrainSim", recv, [Call("SpeedLimitTrainSim::solve_required_pwr", [])],
+                lambda S: slstep.sl_step_domain(S, ramp0), claims,
+                bounds={"braking points": 2, "consist": "one DummyLoco", "brake ramp-up time": "0 (what TrainSimBuilder sets)" if ramp0 else "symbolic > 0", "steps": "1 from an arbitrary state",
+                        "step size": f"{dtv} s (concrete)", "train mass": f"{mass} kg (concrete)"},
+                max_paths=20000, timeout_ms=60000, check_side=False)
+
+
 def m_cases(tier):
     cs = []
+    cs.append(sl_step_case())
     cs.append(recalc_case(1))
     cs.append(recalc_case(2))
     cs.append(recalc_case(2, lookup=True))
     cs.append(recalc_case(1, grade=(-0.02, 0.0)))
     if tier == "thorough":
-        cs += [recalc_case(3), recalc_case(2, kmax=3), recalc_case(2, grade=(0.0, -0.02)), recalc_case(1, grade=(0.015, -0.015)), recalc_case(1, grade=(-0.02, 0.01), kmax=3)]
+        cs += [recalc_case(3), recalc_case(2, kmax=3), recalc_case(1, grade=(0.0, -0.02)), recalc_case(1, grade=(0.015, -0.015)), recalc_case(1, grade=(-0.02, 0.01), kmax=3), recalc_case(3, lookup=True)]
     for n in ((2, 3, 4) if tier == "quick" else (1, 2, 3, 4, 5)):
         for idx in range(n):
             cs.append(calc_speeds_case(n, idx))
